@@ -428,3 +428,36 @@ package processor
 //@   requires p != nil
 //@   pure
 //@ end
+
+// C06 (streamstats means the same however the stream is cut into batches): the
+// window position (currentIndex) and the last seen group key
+// (currentBucketKey) belong to the STREAM, like the accumulated window
+// contents: a batch boundary does not reset them — until the first row of a
+// batch is processed they are what the previous batch left (only Rewind starts
+// the stream over).
+//@ func (*streamstatsProcessor).validateTimeWindow
+//@   props C06
+//@   pure
+//@ end
+//@ func (*streamstatsProcessor).Process
+//@   props C06
+//@   assumecalleerequires
+//@   requires p != nil
+//@   loop 1:
+//@     invariant [stream-position-untouched-while-the-batch-is-prepared] p.currentIndex == old(p.currentIndex) && p.currentBucketKey == old(p.currentBucketKey)
+//@   loop 2:
+//@     invariant [stream-position-untouched-while-the-batch-is-prepared] p.currentIndex == old(p.currentIndex) && p.currentBucketKey == old(p.currentBucketKey)
+//@   loop 3:
+//@     invariant [stream-position-untouched-while-the-batch-is-prepared] p.currentIndex == old(p.currentIndex) && p.currentBucketKey == old(p.currentBucketKey)
+//@   loop 4:
+//@     invariant [stream-position-untouched-while-the-batch-is-prepared] p.currentIndex == old(p.currentIndex) && p.currentBucketKey == old(p.currentBucketKey)
+//@   loop 5:
+//@     invariant [stream-position-untouched-while-the-batch-is-prepared] p.currentIndex == old(p.currentIndex) && p.currentBucketKey == old(p.currentBucketKey)
+//@   loop 6:
+//@     invariant [stream-position-untouched-while-the-batch-is-prepared] p.currentIndex == old(p.currentIndex) && p.currentBucketKey == old(p.currentBucketKey)
+//@   loop 7:
+//@     invariant [stream-position-untouched-while-the-batch-is-prepared] p.currentIndex == old(p.currentIndex) && p.currentBucketKey == old(p.currentBucketKey)
+//@   loop 8:
+//@     invariant [nothing-of-the-stream-position-is-reset-at-a-batch-boundary] i >= 0 && implies(i == 0, p.currentIndex == old(p.currentIndex) && p.currentBucketKey == old(p.currentBucketKey))
+//@   bounded processor/streamstats_split_test.go Test_Bounded_StreamstatsBatchSplit 8 rows, window=3 sum and reset_on_change sum by a key, one batch against each of the 7 ways of cutting the rows into two batches (14 comparisons): every row gets the same value
+//@ end
